@@ -70,3 +70,35 @@ package convert
 //@   calls conv
 //@     may_panic
 //@     ensures (=> (= result.1 nil.Any) (and (wf_deep result.0) (conforms (vty result.0) E) (not (has_opt (vty result.0)))))
+//
+// Unification helpers (C09): the composed conversions returned for tuples unified as a list / objects
+// unified as a map apply the structural conversion first and then the collection conversion. A
+// conversion must be applied to a value of its own input type: the collection conversion takes the
+// list / map, not the original tuple / object.
+//@ func convert.unifyTuplesAsList$1
+//@   tags C09
+//@   requires (and (wf_deep in) (is_tuple_ty (vty in)))
+//@   panics_may true
+//@   ensures[C09] islist: (=> (= err nil.Any) (is_list_ty (vty out)))
+//@   calls tupleConv
+//@     may_panic
+//@     requires[C09] tuple_input: (is_tuple_ty (vty in))
+//@     ensures (=> (= result.1 nil.Any) (and (wf_deep result.0) (is_list_ty (vty result.0))))
+//@   calls listConv
+//@     may_panic
+//@     requires[C09] list_input: (is_list_ty (vty in))
+//@     ensures (=> (= result.1 nil.Any) (and (wf_deep result.0) (is_list_ty (vty result.0))))
+//
+//@ func convert.unifyObjectsAsMaps$1
+//@   tags C09
+//@   requires (and (wf_deep in) (is_obj_ty (vty in)))
+//@   panics_may true
+//@   ensures[C09] ismap: (=> (= err nil.Any) (is_map_ty (vty out)))
+//@   calls objConv
+//@     may_panic
+//@     requires[C09] object_input: (is_obj_ty (vty in))
+//@     ensures (=> (= result.1 nil.Any) (and (wf_deep result.0) (is_map_ty (vty result.0))))
+//@   calls mapConv
+//@     may_panic
+//@     requires[C09] map_input: (is_map_ty (vty in))
+//@     ensures (=> (= result.1 nil.Any) (and (wf_deep result.0) (is_map_ty (vty result.0))))
